@@ -2619,15 +2619,14 @@ class ISLaSolver:
         ...     x, z3.StringVal("10"), {x: z3.Int("x_0")}, set(), {x})
         x_0 == 10
 
-        A "numeric" variable (of "NUM" type) is expected to always be an int variable,
-        which also needs to be reflected in its inclusion in :code:`fresh_var_map`.
+        A "numeric" variable (of "NUM" type) is an int variable if optimized Z3
+        queries are enabled. Otherwise, it is a string variable constrained to the
+        language of numerals, like any other "flexible" variable.
 
         >>> x = language.Variable("x", language.Variable.NUMERIC_NTYPE)
         >>> ISLaSolver.previous_solution_formula(
         ...     x, z3.StringVal("10"), {}, set(), set())
-        Traceback (most recent call last):
-        ...
-        AssertionError
+        x == "10"
 
         :param var: The variable the solution is for.
         :param string_val: The solution for :code:`var`.
@@ -2649,7 +2648,6 @@ class ISLaSolver:
                 z3.IntVal(len(smt_string_val_to_string(string_val))),
             )
         else:
-            assert not var.is_numeric()
             return z3_eq(var.to_smt(), string_val)
 
     def safe_create_fixed_length_tree(
